@@ -1,14 +1,15 @@
 ---------------------------- MODULE MC_LazyIndex ----------------------------
 EXTENDS LazyIndex
-KeysDef == {"foo", "data", "data/bar", "data/sub", "data/sub/baz", "data/sub/deep", "data/sub/deep/qux", "other", "other/x"}
+\* ("void" is a directory object that lists nothing - the object every tracked empty directory shares)
+KeysDef == {"foo", "data", "data/bar", "data/sub", "data/sub/baz", "data/sub/deep", "data/sub/deep/qux", "other", "other/x", "void"}
 ParentDef == [k \in KeysDef |->
-    CASE k \in {"foo", "data", "other"} -> ""
+    CASE k \in {"foo", "data", "other", "void"} -> ""
       [] k \in {"data/bar", "data/sub"} -> "data"
       [] k \in {"data/sub/baz", "data/sub/deep"} -> "data/sub"
       [] k = "data/sub/deep/qux" -> "data/sub/deep"
       [] k = "other/x" -> "other"]
-IsDirDef == [k \in KeysDef |-> k \in {"data", "data/sub", "data/sub/deep", "other"}]
-LazyDef == {"data", "other"}
+IsDirDef == [k \in KeysDef |-> k \in {"data", "data/sub", "data/sub/deep", "other", "void"}]
+LazyDef == {"data", "other", "void"}
 FiltersDef == {"all", "foo", "data", "sub", "other"}
 FilterKeysDef == [f \in FiltersDef |->
     CASE f = "all" -> KeysDef
